@@ -93,8 +93,20 @@ type Pipe struct {
 
 	AuthType transport.InChannelAuthType // only used through the WithAuth wrapper
 
+	LoseAtEnd string // "eof" | "err": once everything produced so far has been delivered the connection is gone (may be set by a reactor under the mutex)
+
+	ReactDelay    time.Duration // the device's reactions are produced only after this delay (a client typing ahead becomes observable)
+	pendingReacts int
+	delayQ        chan delayed
+
 	FailWrite map[int]bool // write number (0-based, counted over all Write calls) -> fail once with an error, nothing reaches the device
 	writeNo   int
+}
+
+type delayed struct {
+	at     time.Time
+	b      []byte
+	bounds []int
 }
 
 // NewPipe returns a pipe around reactor r.
@@ -284,6 +296,20 @@ func (p *Pipe) Read(n int) ([]byte, error) {
 			}
 		}
 
+		if p.LoseAtEnd != "" && len(p.out) == 0 && p.pendingReacts == 0 {
+			p.lost = true
+			p.LoseKind = p.LoseAtEnd
+			p.ev("readerr", []byte(p.LoseAtEnd))
+			kind := p.LoseAtEnd
+			p.mu.Unlock()
+
+			if kind == "eof" {
+				return nil, io.EOF
+			}
+
+			return nil, errEIO
+		}
+
 		if p.LoseAt >= 0 && p.LoseKind != "werr" && p.delivered >= p.mark+p.LoseAt {
 			p.lost = true
 			p.ev("readerr", []byte(p.LoseKind))
@@ -364,14 +390,32 @@ func (p *Pipe) Write(b []byte) error {
 	if p.R != nil {
 		out := p.R.OnInput(cp)
 
+		var offs []int
+
 		if bt, ok := p.R.(interface{ TakeBounds() []int }); ok && p.MsgBounds {
-			for _, off := range bt.TakeBounds() {
-				p.bounds = append(p.bounds, p.produced+off)
-			}
+			offs = bt.TakeBounds()
 		}
+
 		p.Reacts = append(p.Reacts, len(out))
 		p.ReactB = append(p.ReactB, append([]byte(nil), out...))
-		p.produce(out)
+
+		if p.ReactDelay > 0 && len(out) > 0 {
+			p.pendingReacts++
+
+			if p.delayQ == nil {
+				p.delayQ = make(chan delayed, 1024)
+
+				go p.delayWorker()
+			}
+
+			p.delayQ <- delayed{at: time.Now().Add(p.ReactDelay), b: out, bounds: offs}
+		} else {
+			for _, off := range offs {
+				p.bounds = append(p.bounds, p.produced+off)
+			}
+
+			p.produce(out)
+		}
 	} else {
 		p.Reacts = append(p.Reacts, 0)
 		p.ReactB = append(p.ReactB, nil)
@@ -380,6 +424,33 @@ func (p *Pipe) Write(b []byte) error {
 	p.cond.Broadcast()
 
 	return nil
+}
+
+func (p *Pipe) delayWorker() {
+	for d := range p.delayQ {
+		if w := time.Until(d.at); w > 0 {
+			time.Sleep(w)
+		}
+
+		p.mu.Lock()
+
+		for _, off := range d.bounds {
+			p.bounds = append(p.bounds, p.produced+off)
+		}
+
+		p.produce(d.b)
+		p.pendingReacts--
+		p.cond.Broadcast()
+		p.mu.Unlock()
+	}
+}
+
+// MarkAbs returns the absolute stream offset of the mark.
+func (p *Pipe) MarkAbs() int {
+	p.mu.Lock()
+	defer p.mu.Unlock()
+
+	return p.mark
 }
 
 // Inject makes the device send b spontaneously.
@@ -402,7 +473,7 @@ func (p *Pipe) WaitDrained(d time.Duration) bool {
 
 	for time.Now().Before(deadline) {
 		p.mu.Lock()
-		ok := len(p.out) == 0
+		ok := len(p.out) == 0 && p.pendingReacts == 0
 		p.mu.Unlock()
 
 		if ok {
